@@ -12,7 +12,7 @@ use std::collections::{BTreeMap, HashMap};
 use std::convert::TryFrom;
 
 pub fn part() -> Part {
-    Part { name: "non-interference", cfg_len: solo::CFG_LEN, tape_max: 200, quick: 2_500, thorough: 80_000, max_shrink_iters: 150, run }
+    Part { name: "non-interference", cfg_len: solo::CFG_LEN, tape_max: 200, quick: 10_000, thorough: 250_000, max_shrink_iters: 150, run }
 }
 
 /// Canonical identity of a block modulo the order of its payload (the proposer drains a HashSet, so
